@@ -15,6 +15,8 @@ use wirm::{DataSegment, DataSegmentKind, DataType, Module};
 #[derive(Clone, Copy, Debug, PartialEq, Eq, Hash, Serialize, Deserialize)]
 pub enum PMode {
     Before,
+    /// `before` code on the function's final `end` (the only code the encoder keeps there)
+    BeforeFinalEnd,
     After,
     Alternate,
     SemanticAfterBlock,
@@ -83,6 +85,7 @@ fn tag_of(k: usize) -> Vec<u8> {
 fn probe_site(mode: PMode) -> usize {
     match mode {
         PMode::Before | PMode::After | PMode::Alternate => 11,
+        PMode::BeforeFinalEnd => 12,
         PMode::SemanticAfterBlock | PMode::BlockEntry | PMode::BlockExit | PMode::BlockAlt => 2,
         PMode::SemanticAfterBr => 3,
         PMode::FuncEntry | PMode::FuncExit => 0,
@@ -198,7 +201,7 @@ fn apply<'a>(module: &mut Module<'a>, items: &[Item]) -> Vec<Expect> {
                         }
                     }
                     match mode {
-                        PMode::Before => {
+                        PMode::Before | PMode::BeforeFinalEnd => {
                             iter.before();
                         }
                         PMode::After => {
@@ -242,7 +245,7 @@ fn apply<'a>(module: &mut Module<'a>, items: &[Item]) -> Vec<Expect> {
                     let mut fm = module.functions.get_fn_modifier(FunctionID(L0)).expect("harness: local");
                     let loc = Location::Module { func_idx: FunctionID(L0), instr_idx: at };
                     match mode {
-                        PMode::Before => {
+                        PMode::Before | PMode::BeforeFinalEnd => {
                             fm.before_at(loc);
                         }
                         PMode::After => {
@@ -279,7 +282,7 @@ fn apply<'a>(module: &mut Module<'a>, items: &[Item]) -> Vec<Expect> {
                     fm.finish_instr();
                 }
                 if tagged {
-                    exp.push(Expect { tag: tag_of(k), kind: InjectType::Probe, what: format!("{:?}", mode), marker: Some(marker), plain_probe: matches!(mode, PMode::Before | PMode::After | PMode::Alternate) });
+                    exp.push(Expect { tag: tag_of(k), kind: InjectType::Probe, what: format!("{:?}", mode), marker: Some(marker), plain_probe: matches!(mode, PMode::Before | PMode::BeforeFinalEnd | PMode::After | PMode::Alternate) });
                 }
             }
         }
@@ -450,7 +453,7 @@ fn run_case(c: &Case) -> Outcome {
                                 let gets: Vec<&String> = r.body.iter().filter(|o| o.starts_with("GlobalGet")).collect();
                                 o.fail(format!("record-body index-space global {}", what), format!("in the encoded module $g0 is global {}, the record says {:?}", g0_index, gets));
                             }
-                            if e.plain_probe && r.mode != e.what {
+                            if e.plain_probe && r.mode != e.what.replace("BeforeFinalEnd", "Before") {
                                 o.fail(format!("tagged-item mode-differs {}", what), format!("record mode {}", r.mode));
                             }
                         }
@@ -479,7 +482,7 @@ fn run_case(c: &Case) -> Outcome {
 pub fn check(tier: Tier) -> i32 {
     let mut run = Run::new("C23", tier, "model_checking");
     let mut alphabet = vec![Item::Type, Item::ImportFunc, Item::ImportGlobal, Item::ImportMemory, Item::Export, Item::Func, Item::Global, Item::Memory, Item::PassiveData, Item::ActiveData, Item::UntaggedImportFunc, Item::UntaggedProbe, Item::TypeSameAsBase, Item::TypeAgainUntagged];
-    for mode in [PMode::Before, PMode::After, PMode::Alternate, PMode::SemanticAfterBlock, PMode::SemanticAfterBr, PMode::BlockEntry, PMode::BlockExit, PMode::BlockAlt, PMode::FuncEntry, PMode::FuncExit] {
+    for mode in [PMode::Before, PMode::BeforeFinalEnd, PMode::After, PMode::Alternate, PMode::SemanticAfterBlock, PMode::SemanticAfterBr, PMode::BlockEntry, PMode::BlockExit, PMode::BlockAlt, PMode::FuncEntry, PMode::FuncExit] {
         for api in 0..2u8 {
             alphabet.push(Item::Probe { mode, api });
         }
@@ -515,7 +518,7 @@ pub fn check(tier: Tier) -> i32 {
         frontier = next;
     }
     run.rule = format!(
-        "all histories of length <= {} over 34 operations: tagged additions of every kind (type, function/global/memory import, export, built function, global, memory, passive and active data), tagged probes of every mode (before, after, alternate, semantic-after on a block and on a br, block-entry, block-exit, block-alt, function entry/exit) through the module iterator (append_to_tag) and the function modifier (append_tag_at), plus untagged additions and probes, a tagged request for a type the base already has and an untagged re-request of a tagged type, on a base that already has an item of every kind. Three replays per history: one calls pull_side_effects(), one encode(), one pull_side_effects() and then encode() (whose bytes must equal the second's). Oracle: for every tag exactly one record of the item's kind carries it (special-mode probes: at least one), with the item's content; a probe's / function's record body contains the item's code and refers to function $l1, memory $m0 and global $g0 by their indices in the ENCODED module; no non-empty tag appears that was never attached; no record describes a pre-existing item. Records with empty tags are tolerated.",
+        "all histories of length <= {} over 36 operations: tagged additions of every kind (type, function/global/memory import, export, built function, global, memory, passive and active data), tagged probes of every mode (before - also on the function's final end -, after, alternate, semantic-after on a block and on a br, block-entry, block-exit, block-alt, function entry/exit) through the module iterator (append_to_tag) and the function modifier (append_tag_at), plus untagged additions and probes, a tagged request for a type the base already has and an untagged re-request of a tagged type, on a base that already has an item of every kind. Three replays per history: one calls pull_side_effects(), one encode(), one pull_side_effects() and then encode() (whose bytes must equal the second's). Oracle: for every tag exactly one record of the item's kind carries it (special-mode probes: at least one), with the item's content; a probe's / function's record body contains the item's code and refers to function $l1, memory $m0 and global $g0 by their indices in the ENCODED module; no non-empty tag appears that was never attached; no record describes a pre-existing item. Records with empty tags are tolerated.",
         depth
     );
     run.run_cases("tagged histories", &cases, run_case);
